@@ -162,7 +162,7 @@ def run(kind, seed, n_workers, conf, criterion_kwargs, tuner_conf=None):
                 tl_ev.append({"a": "W_Exit", "t": int(t)})
                 exited.add(t)
         sim_ev.append({"a": "Fetch", "ids": sorted(int(t) for t in trial_ids), "res": out, "now": now()})
-        tl_ev.append({"a": "Fetch", "n": len(res), "dead": [], "vals": []})
+        tl_ev.append({"a": "Fetch", "n": len(res), "dead": [], "vals": [[int(t), int(round(r["m"])), 0] for t, r in res]})
         return st, res
 
     def pause_trial(trial_id, result=None):
